@@ -45,6 +45,7 @@ GROUPS = {
     'Purge': dict(kind='custom', flags=RELEASE, fn='gen_purge'),
     'Formats': dict(kind='custom', flags=RELEASE, fn='gen_formats'),
     'Override': dict(kind='custom', flags=RELEASE + ('-DMI_MALLOC_OVERRIDE', '-DMI_SHARED_LIB', '-DMI_SHARED_LIB_EXPORT'), fn='gen_override'),
+    'Commit': dict(kind='custom', flags=RELEASE, fn='gen_commit'),
     'Entry': dict(kind='translate', flags=RELEASE, names=ENTRY, mem=False, explicit_in=('mi_posix_memalign',), namespace='GenE'),
 }
 
@@ -262,6 +263,12 @@ def gen_override(tu, spec):
          'def notUnderstood : List String := [' + ', '.join(lean_str(x) for x in odd) + ']',
          'end GenV']
     return '\n'.join(L) + '\n'
+
+
+def gen_commit(tu, spec):
+    """the commit-bookkeeping functions of src/segment.c over GenC.SegSt (extract/masktr.py)"""
+    import masktr
+    return masktr.translate(tu)
 
 
 def _alias_from_source(repo, fdecl):
